@@ -231,3 +231,89 @@ Definition step_replace (s : st) (e : event) : option st :=
   end.
 Definition run_replace (s : st) (tr : list event) : option st :=
   fold_left (fun os e => match os with Some s => step_replace s e | None => None end) tr (Some s).
+
+(* ---- what `lock : option proc` abstracts: the lock *file* -------------------------------------
+   fasteners.InterProcessLock.acquire opens the path once (`_do_open`, creating the file when it
+   does not exist), then retries a non-blocking fcntl lock on *that handle* until it succeeds.  An
+   fcntl lock belongs to the file (inode), not to its name.  The code never removes
+   xp/<name>/lock, so all handles denote one inode and "holder of the path" is well defined; this
+   sub-model makes the assumption explicit: with a variant of __exit__ that also unlinks the lock
+   file after releasing it (not the code), a waiter acquires the nameless old file and a later
+   contender creates, and locks, a fresh one.                                                     *)
+Definition inode := nat.
+Record lf := {
+  lf_path : option inode;            (* the file currently named xp/<name>/lock *)
+  lf_next : inode;                   (* next fresh inode *)
+  lf_handle : proc -> option inode;  (* file the process has open (waiting for it or holding it) *)
+  lf_holder : inode -> option proc   (* fcntl lock of each file *)
+}.
+Definition lf_init : lf :=
+  {| lf_path := None; lf_next := 0%nat; lf_handle := fun _ => None; lf_holder := fun _ => None |}.
+
+Definition updh {A} (f : nat -> option A) (k : nat) (v : option A) : nat -> option A :=
+  fun q => if Nat.eqb q k then v else f q.
+
+Inductive lf_event :=
+| LOpen (p : proc)             (* _do_open: open(path, "a+") *)
+| LAcquire (p : proc)          (* a successful _try_acquire on the open handle *)
+| LRelease (p : proc)          (* InterProcessLock.__exit__: unlock, close *)
+| LReleaseUnlink (p : proc)    (* variant only: unlock, close, unlink(path) *)
+| LDie (p : proc).             (* process death closes the handle, which drops its lock *)
+
+Definition lf_step_gen (allow_unlink : bool) (s : lf) (e : lf_event) : option lf :=
+  match e with
+  | LOpen p =>
+      match lf_handle s p with
+      | Some _ => None
+      | None =>
+          match lf_path s with
+          | Some i => Some {| lf_path := lf_path s; lf_next := lf_next s;
+                              lf_handle := updh (lf_handle s) p (Some i); lf_holder := lf_holder s |}
+          | None => Some {| lf_path := Some (lf_next s); lf_next := S (lf_next s);
+                            lf_handle := updh (lf_handle s) p (Some (lf_next s)); lf_holder := lf_holder s |}
+          end
+      end
+  | LAcquire p =>
+      match lf_handle s p with
+      | Some i => match lf_holder s i with
+                  | None => Some {| lf_path := lf_path s; lf_next := lf_next s; lf_handle := lf_handle s;
+                                    lf_holder := updh (lf_holder s) i (Some p) |}
+                  | Some _ => None
+                  end
+      | None => None
+      end
+  | LRelease p | LReleaseUnlink p =>
+      match e, allow_unlink with
+      | LReleaseUnlink _, false => None
+      | _, _ =>
+        match lf_handle s p with
+        | Some i => match lf_holder s i with
+                    | Some q => if Nat.eqb q p
+                                then Some {| lf_path := match e with LReleaseUnlink _ => None | _ => lf_path s end;
+                                             lf_next := lf_next s;
+                                             lf_handle := updh (lf_handle s) p None;
+                                             lf_holder := updh (lf_holder s) i None |}
+                                else None
+                    | None => None
+                    end
+        | None => None
+        end
+      end
+  | LDie p =>
+      match lf_handle s p with
+      | Some i => Some {| lf_path := lf_path s; lf_next := lf_next s;
+                          lf_handle := updh (lf_handle s) p None;
+                          lf_holder := match lf_holder s i with
+                                       | Some q => if Nat.eqb q p then updh (lf_holder s) i None else lf_holder s
+                                       | None => lf_holder s
+                                       end |}
+      | None => None
+      end
+  end.
+
+Definition lf_step := lf_step_gen false.          (* the code: the lock file is never removed *)
+Definition lf_step_unlink := lf_step_gen true.    (* the variant *)
+Definition lf_run_gen (b : bool) (s : lf) (tr : list lf_event) : option lf :=
+  fold_left (fun os e => match os with Some s => lf_step_gen b s e | None => None end) tr (Some s).
+Definition lf_run := lf_run_gen false.
+Definition lf_run_unlink := lf_run_gen true.
